@@ -98,6 +98,15 @@ def main(tier, seed):
     expected = 2 * (2 ** (n + 1) - 1) - 1   # both variants share the empty list
     if res['exports'] < expected:
         common.machinery_exit('C13', 'TLC exported %d behaviours, expected %d' % (res['exports'], expected))
+    # three-digit entries (98, 99, 100, ...): shorter lists, files with 100+ agents
+    pool = engine.Pool()
+    n3 = 6 if tier == 'quick' else 8
+    try:
+        res3 = engine.tlc_replay(rep, pool, 'MC_Ties', replay, consts={'N': n3, 'Variants': {'big'}, 'WithFiles': True},
+                                 invariants=INVS, on_result=on_result, timeout=3000, label='MC_Ties three-digit entries')
+    finally:
+        pool.close()
+    rep.notes.append('three-digit entries: lists up to length %d, %d behaviours' % (n3, res3['exports']))
     rep.evaluations = res['exports']
     rep.distinct = set(range(seen['nt']))
     rep.sample({'list': [3, 2, 1], 'ties': [1, 0, 1], 'tokens': ['(3', '2)', '1'], 'ranks': [1, 1, 2],
